@@ -405,7 +405,7 @@ theorem bnd_hex (best : Run) (i : Nat) (L : Int) (_h0 : 0 ≤ L)
   omega
 
 theorem bnd_v4 (best : Run) (L : Int)
-    (hrun : ¬ (best.base ≠ -1 ∧ ((6 : Nat) : Int) ≥ best.base ∧ ((6 : Nat) : Int) < best.base + best.len))
+    (_hrun : ¬ (best.base ≠ -1 ∧ ((6 : Nat) : Int) ≥ best.base ∧ ((6 : Nat) : Int) < best.base + best.len))
     (hb : best.base = 0) (hl : 5 ≤ best.len) (hL : L ≤ bnd best 6) : L ≤ 6 := by
   unfold bnd at *
   omega
@@ -473,5 +473,54 @@ theorem fmt6Loop_ok (src ws : List Nat) (best : Run) (i : Nat) (tp : List Nat)
     have : i = 8 := by omega
     subst this
     exact ⟨tp, rfl, by have := bnd_end best tp.length hb; omega, hc⟩
+
+theorem words_getD (src : List Nat) (j : Nat) :
+    (words src).getD j 0 = if j < 8 then src.getD (2 * j) 0 * 256 + src.getD (2 * j + 1) 0 else 0 := by
+  unfold words
+  split
+  · rename_i h
+    simp [List.getD_eq_getElem?_getD, List.getElem?_map, List.getElem?_range h]
+  · rename_i h
+    have : (List.range 8)[j]? = none := by simp; omega
+    simp [List.getD_eq_getElem?_getD, List.getElem?_map, this]
+
+theorem words_lt (src : List Nat) (hsrc : ∀ j, src.getD j 0 < 256) (j : Nat) : (words src).getD j 0 < 65536 := by
+  rw [words_getD]
+  have h1 := hsrc (2 * j)
+  have h2 := hsrc (2 * j + 1)
+  split <;> omega
+
+theorem okChar6_ne_zero (c : Nat) (h : OkChar6 c) : c ≠ 0 := by
+  unfold OkChar6 at h; omega
+
+/-- `inet_ntop6` always produces a text; it fits `tmp[46]` with its NUL and uses only `0-9a-f:.` -/
+theorem ntop6Text_ok (src : List Nat) (hsrc : ∀ j, src.getD j 0 < 256) :
+    ∃ t, ntop6Text src = .ok t ∧ t.length ≤ 41 ∧ ∀ c ∈ t, OkChar6 c := by
+  obtain ⟨out, ho, hl, hc⟩ := fmt6Loop_ok src (words src) (bestRun (words src)) 0 []
+    (words_lt src hsrc) hsrc (by unfold bnd; simp) (by omega) (by simp)
+  unfold ntop6Text
+  simp only [ho]
+  split
+  · refine ⟨_, rfl, by simp; omega, ?_⟩
+    intro c h
+    simp at h
+    rcases h with h | h
+    · exact hc c h
+    · exact Or.inr (Or.inr (Or.inl h))
+  · exact ⟨_, rfl, by omega, hc⟩
+
+/-- closed form of `inet_ntop6` -/
+theorem ntop6_spec (src d t : List Nat) (size : Nat) (ht : ntop6Text src = .ok t) (hz : ∀ c ∈ t, c ≠ 0)
+    (hn : size ≤ d.length) (hmax : size ≤ SSIZE_MAX + 1) :
+    ntop6 src d size =
+      if size ≤ t.length then (UV_ENOSPC, d) else (0, t ++ 0 :: d.drop (t.length + 1)) := by
+  unfold ntop6
+  simp only [ht]
+  by_cases h : size ≤ t.length
+  · rw [if_pos (by simp; omega), if_pos h]
+  · rw [if_neg (by simp; omega), if_neg h, strscpy_spec d _ size hn hmax]
+    have : cstr (t ++ [0]) = t := cstr_append_nul t [] hz
+    rw [this]
+    simp [show size ≠ 0 by omega, show t.length < size by omega]
 
 end UvModel.Inet
